@@ -213,6 +213,15 @@ def run_malformed():
     good = files[0]
     variants += [("lowercase-header", b"patch" + good[5:]), ("no-header", good[5:]), ("PATCH-misspelt", b"PATCX" + good[5:]),
                  ("missing-EOF", good[:-3]), ("empty-file", b""), ("only-header", b"PATCH")]
+    # the size field of the LAST record claims more bytes than are left before the end marker (marker intact)
+    for fi, f in enumerate(files):
+        recs = ips.parse(f)
+        if recs and recs[-1][2] == "plain":
+            body_len = len(recs[-1][1])
+            pos = len(f) - 3 - body_len - 2   # offset of the size field of the last (plain) record
+            for extra in (1, 2, 3, 7, 300):
+                sz = body_len + extra
+                variants.append((f"file{fi}-last-size+{extra}", f[:pos] + sz.to_bytes(2, "big") + f[pos + 2:]))
     src = "*=0x018000\n.db 1\n.include_ips 'm.ips', 0\n.db 2\n"
     for name, data in variants:
         try:
